@@ -117,7 +117,7 @@ func init() {
 		panic(in.bug("sync.Cond without L"))
 	}
 	callLocker := func(in *Interp, l Iface, m string) {
-		fn := in.Prog.LookupMethod(l.T, nil, m)
+		fn := in.findMethod(l.T, m)
 		if fn == nil {
 			panic(in.bug("Locker method %s not found on %s", m, l.T))
 		}
@@ -654,7 +654,7 @@ func (in *Interp) errorsIs(err, target Iface, depth int) bool {
 		return false
 	}
 	// Unwrap() error
-	if fn := in.Prog.LookupMethod(err.T, nil, "Unwrap"); fn != nil && fn.Signature.Results().Len() == 1 {
+	if fn := in.findMethod(err.T, "Unwrap"); fn != nil && fn.Signature.Results().Len() == 1 {
 		if _, ok := fn.Signature.Results().At(0).Type().Underlying().(*types.Interface); ok {
 			r := in.callFunction(fn, []Value{err.V}, nil)
 			return in.errorsIs(r.(Iface), target, depth+1)
@@ -676,10 +676,10 @@ func (in *Interp) errorString(iv Iface) Str {
 	if strings.HasPrefix(iv.T.String(), "opaque:") {
 		return StrOf("<" + iv.T.String() + ">")
 	}
-	if fn := in.Prog.LookupMethod(iv.T, nil, "Error"); fn != nil {
+	if fn := in.findMethod(iv.T, "Error"); fn != nil {
 		return in.callFunction(fn, []Value{iv.V}, nil).(Str)
 	}
-	if fn := in.Prog.LookupMethod(iv.T, nil, "String"); fn != nil {
+	if fn := in.findMethod(iv.T, "String"); fn != nil {
 		return in.callFunction(fn, []Value{iv.V}, nil).(Str)
 	}
 	return StrOf("<" + iv.T.String() + ">")
@@ -695,7 +695,7 @@ func (in *Interp) fmtArg(v Value, verb byte) Str {
 			if strings.HasPrefix(x.T.String(), "opaque:") || types.Implements(x.T, errorIface()) {
 				return in.errorString(x)
 			}
-			if fn := in.Prog.LookupMethod(x.T, nil, "String"); fn != nil && fn.Signature.Params().Len() == 0 && fn.Signature.Results().Len() == 1 {
+			if fn := in.findMethod(x.T, "String"); fn != nil && fn.Signature.Params().Len() == 0 && fn.Signature.Results().Len() == 1 {
 				if r, ok := in.callFunction(fn, []Value{x.V}, nil).(Str); ok {
 					return r
 				}
